@@ -498,25 +498,41 @@ Lemma props_error ctx allowed plen t d e : plen < VMAX ->
   decode_props ctx allowed t (write_var_int plen ++ d) = RErr e.
 Proof. intros H He. unfold decode_props. apply bind_err. apply props_full_error; assumption. Qed.
 
-(* -- the catalogue rows at the FIRST property position of a section -- *)
+(* the value of every valid property occupies at least one byte and fewer than 2^16 + 2 *)
+Lemma value_len_bounds ty v : value_inv ty v = true -> value_valid ty v = true ->
+  0 < value_len ty v < 65538.
+Proof.
+  destruct ty, v; cbn [value_inv value_valid value_len pv_n pv_b]; intros H Hv; try discriminate;
+    try (unfold short in Hv); try lia.
+  apply N.ltb_lt in H. rewrite (var_int_len_ok n) by exact H. unfold width. repeat dtest; lia.
+Qed.
+
+
+(* an error of decode_props_full is an error of decode_props *)
+Lemma props_of_full ctx allowed t d e :
+  decode_props_full ctx allowed t d = RErr e -> decode_props ctx allowed t d = RErr e.
+Proof. intros H. unfold decode_props. apply bind_err. exact H. Qed.
+
+(* -- the catalogue rows at the FIRST property position of a section (stated for decode_props_full;
+      props_of_full carries them to decode_props) -- *)
 Section FirstProperty.
 Variables (ctx : prop_ctx) (allowed : list prop_id) (plen : N) (t : tail) (r : bytes).
 Hypothesis Hpos : 0 < plen.
 Hypothesis Hmax : plen < VMAX.
 
 Theorem C20_props_unknown_id b : prop_of_u8 b = None ->
-  decode_props ctx allowed t (write_var_int plen ++ b :: r) = RErr (InvalidPropertyId b).
-Proof. intros Hb. apply props_error; [exact Hmax|]. apply C20_prop_unknown_id; assumption. Qed.
+  decode_props_full ctx allowed t (write_var_int plen ++ b :: r) = RErr (InvalidPropertyId b).
+Proof. intros Hb. apply props_full_error; [exact Hmax|]. apply C20_prop_unknown_id; assumption. Qed.
 
 Theorem C20_props_disallowed id : prop_mem id allowed = false ->
-  decode_props ctx allowed t (write_var_int plen ++ prop_num id :: r) = RErr (ctx_err ctx id).
-Proof. intros Hb. apply props_error; [exact Hmax|]. apply C20_prop_disallowed; assumption. Qed.
+  decode_props_full ctx allowed t (write_var_int plen ++ prop_num id :: r) = RErr (ctx_err ctx id).
+Proof. intros Hb. apply props_full_error; [exact Hmax|]. apply C20_prop_disallowed; assumption. Qed.
 
 Theorem C20_props_bad_byte id v : prop_mem id allowed = true -> byte_valued id = true -> 1 < v ->
-  decode_props ctx allowed t (write_var_int plen ++ prop_num id :: v :: r)
+  decode_props_full ctx allowed t (write_var_int plen ++ prop_num id :: v :: r)
   = RErr (InvalidByteProperty (prop_num id) v).
 Proof.
-  intros Hm Hb Hv. apply props_error; [exact Hmax|].
+  intros Hm Hb Hv. apply props_full_error; [exact Hmax|].
   apply C20_prop_bad_byte; try assumption. apply pget_empty.
 Qed.
 
@@ -525,14 +541,23 @@ Theorem C20_props_duplicated id v :
   prop_mem id allowed = true ->
   value_inv (prop_wtype id) v = true -> value_valid (prop_wtype id) v = true ->
   1 + value_len (prop_wtype id) v < plen ->
-  decode_props ctx allowed t
+  decode_props_full ctx allowed t
     (write_var_int plen ++ prop_num id :: concat (encode_value (prop_wtype id) v) ++ prop_num id :: r)
   = RErr (DuplicatedProperty (prop_num id)).
 Proof.
-  intros Hm Hi Hv Hl. apply props_error; [exact Hmax|].
+  intros Hm Hi Hv Hl. apply props_full_error; [exact Hmax|].
   erewrite loop_step_prop; [|exact Hpos|exact Hm|apply pget_empty|apply decode_value_rt; assumption].
   cbn [length]. rewrite app_length. cbn [length]. rewrite Nat.add_succ_r.
   eapply C20_prop_duplicated; [lia|exact Hm|apply pget_pset_same].
+Qed.
+
+(* a value decoder's own error at the first position: non-UTF-8 string, wildcard in the Response
+   Topic, over-long Subscription Identifier *)
+Theorem C20_props_value_error id e : prop_mem id allowed = true -> decode_value id t r = RErr e ->
+  decode_props_full ctx allowed t (write_var_int plen ++ prop_num id :: r) = RErr e.
+Proof.
+  intros Hm He. apply props_full_error; [exact Hmax|].
+  apply prop_value_error; [exact Hpos|exact Hm|apply pget_empty|exact He].
 Qed.
 End FirstProperty.
 
@@ -540,23 +565,27 @@ End FirstProperty.
 Theorem C20_props_length_minus_one ctx allowed id v t r :
   prop_mem id allowed = true ->
   value_inv (prop_wtype id) v = true -> value_valid (prop_wtype id) v = true ->
-  0 < value_len (prop_wtype id) v -> value_len (prop_wtype id) v < VMAX ->
-  decode_props ctx allowed t
+  decode_props_full ctx allowed t
     (write_var_int (value_len (prop_wtype id) v) ++ prop_num id :: concat (encode_value (prop_wtype id) v) ++ r)
   = RErr (InvalidPropertyLength (value_len (prop_wtype id) v)).
 Proof.
-  intros Hm Hi Hv Hpos Hmax. apply props_error; [exact Hmax|].
+  intros Hm Hi Hv. destruct (value_len_bounds _ _ Hi Hv) as [Hpos Hmax].
+  assert (Hmax' : value_len (prop_wtype id) v < VMAX) by (unfold VMAX; lia).
+  apply props_full_error; [exact Hmax'|].
   erewrite loop_step_prop; [|exact Hpos|exact Hm|apply pget_empty|apply decode_value_rt; assumption].
   apply C20_prop_length_overshoot. lia.
 Qed.
 
-(* the value of every valid property occupies at least one byte and fewer than 2^16 + 2 *)
-Lemma value_len_bounds ty v : value_inv ty v = true -> value_valid ty v = true ->
-  0 < value_len ty v < 65538.
+(* string-valued properties *)
+Definition string_valued (id : prop_id) : bool :=
+  match prop_wtype id with WStr | WTopic => true | _ => false end.
+
+Theorem C20_string_property_value id s t r : string_valued id = true -> len s <= 65535 -> utf8_valid s = false ->
+  decode_value id t (be16 (len s mod 65536) ++ s ++ r) = RErr InvalidString.
 Proof.
-  destruct ty, v; cbn [value_inv value_valid value_len pv_n pv_b]; intros H Hv; try discriminate;
-    try (unfold short in Hv); try lia.
-  apply N.ltb_lt in H. rewrite (var_int_len_ok n) by exact H. unfold width. repeat dtest; lia.
+  intros Hs Hl Hv. unfold string_valued in Hs. unfold decode_value.
+  destruct (prop_wtype id); try discriminate Hs;
+    (erewrite bind_err by (apply read_string_invalid_lp; assumption)); reflexivity.
 Qed.
 
 (* ------------------------------------------------------------------------------------ *)
